@@ -83,11 +83,11 @@ def deviate(rng, cols):
     return {"cols": cols, "mut": mut}, kind
 
 
-def strict_accepts(line):
+def strict_accepts(line, ann=ANN):
     from maflib.record import MafRecord
     from maflib.validation import ValidationStringency as VS
     try:
-        MafRecord.from_line(line, scheme=impl.scheme_by_annotation(ANN), validation_stringency=VS.Strict)
+        MafRecord.from_line(line, scheme=impl.scheme_by_annotation(ann), validation_stringency=VS.Strict)
         return True
     except Exception:  # noqa
         return False
@@ -184,11 +184,283 @@ def model_differs(r, kinds, sort, m, i):
             "impl": None if k is None else {"exc": i["steps"][k]["exc"], "tail": i["steps"][k]["out"][-80:]}}
 
 
+# ------------------------------------------------------------------ histories
+# Record OBJECTS that live across steps: parsed / validated / offered, then changed through every mutable handle the API
+# exposes (column.value, in-place list mutation, column.key, column.column_index, record[name] = ..., del record[name]),
+# offered again, or changed after a successful offer - on direct and sorting writers opened by every route.
+# Oracle (the property's): a refusal is the format exception and writes nothing; every emitted line is the text the record had
+# when it was accepted, has the scheme's field count and is accepted by a Strict reader; the file is accepted in full.
+# Input families on which /repo really violates the property at present; they are generated, run and counted (dontcare), not judged.
+#  sorter-first-record-keys-alias: a sorting writer keeps `record.keys()` - a live view - of the FIRST record it accepted as the
+#    column names for re-parsing every stashed line (MafSorterCodec.encode); when the caller then renames a column of that object
+#    (column.key = ...) or deletes one (del record[name]), close() raises the format exception and no accepted record is emitted.
+PENDING_DEFECTS = []
+
+
+def pending_defect(req, i):
+    """The pending-defect family the history belongs to (decided on its ops and on which offer was accepted first), or None."""
+    if "sorter-first-record-keys-alias" in PENDING_DEFECTS and not req["assume_sorted"] and "steps" in i:
+        first = next((k for k, (o, st) in enumerate(zip(req["ops"], i["steps"])) if o["k"] == "write" and st["exc"] is None), None)
+        if first is not None:
+            rid = req["ops"][first]["id"]
+            if any(o.get("id") == rid and (o["k"] == "delete" or (o["k"] == "mut" and o["field"] == "key")) for o in req["ops"][first + 1:]):
+                return "sorter-first-record-keys-alias"
+    return None
+
+LIST_ELEMS = [{"t": "str", "v": ""}, {"t": "str", "v": "x"}, {"t": "str", "v": "a;b"}, {"t": "str", "v": "a\tb"}, {"t": "str", "v": "a\nb"},
+              {"t": "float", "v": "7.5"}, {"t": "none"}, {"t": "int", "v": "3"}, {"t": "str", "v": "HiSeq"}, {"t": "bool", "v": True},
+              {"t": "str", "v": "rs7"}, {"t": "enum", "c": "SequencerEnum", "m": "IlluminaHiSeq"}, {"t": "str", "v": " "}]
+PATTERNS = ["mutate-then-offer"] * 3 + ["offer-mutate-reoffer"] * 3 + ["offer-mutate"] * 2 + ["offer-twice", "refuse-repair-reoffer", "plain"]
+CHANNELS = ["handle", "handle", "handle", "ctor", "plain", "gz"]
+LIST_TEXTS = {"Center": ["BI;WUGSC", "BI", "a;b;c"], "dbSNP_RS": ["rs1;rs2", "novel", "rs5"], "Validation_Method": ["m1;m2", "x"]}
+
+
+def history_header(ann, sort):
+    return (["#version gdc-1.0.0"] + ([] if ann == ANN else ["#annotation.spec " + ann]) + (["#sort.order Coordinate"] if sort else []))
+
+
+def history_record(rng, ann):
+    """(column specs, line) of a conforming record under `ann`, list-valued columns mostly non-empty."""
+    sch = impl.scheme_by_annotation(ann)
+    names = sch.column_names()
+    extra = {n: rng.choice(ts) for n, ts in sorted(LIST_TEXTS.items()) if n in names and rng.random() < 0.7}
+    rec = SC.typed_record(rng, rng.choice(["T1", "T2"]), rng.choice(["N1", None]), rng.choice(["1", "X", "2"]),
+                          rng.choice([5, 50, 500]), rng.choice([600, 700]), ann=ann, extra=extra)
+    cols = [{"scheme": ann, "col": n, "key": n, "value": enc_val(rec[n].value), "index": k} for k, n in enumerate(names)]
+    return cols, str(rec)
+
+
+def gen_mutations(rng, rid, cols, ann):
+    """One change of a live record, as the ops that make it (1 or 2)."""
+    listy = [j for j, c in enumerate(cols) if c["value"].get("t") == "list"]
+    kind = rng.choice(["value-odd", "value-valid", "position", "key", "index", "replace", "delete"] + ["list"] * (4 if listy else 0))
+    k = rng.randrange(len(cols))
+    if kind == "list":
+        j = rng.choice(listy)
+        n = len(cols[j]["value"]["v"])
+        f = rng.choice(["list.append", "list.append", "list.insert", "list.extend", "list.pop", "list.clear"] + (["list.setitem"] * 2 if n else []))
+        o = {"k": "mut", "id": rid, "i": j, "field": f}
+        if f == "list.extend":
+            o["to"] = {"t": "list", "v": [rng.choice(LIST_ELEMS) for _ in range(rng.randrange(1, 3))]}
+        elif f not in ("list.pop", "list.clear"):
+            o["to"] = rng.choice(LIST_ELEMS)
+            o["at"] = rng.randrange(n) if (f == "list.setitem" and n) else 0
+        return [o], "list"
+    if kind == "value-odd":
+        return [{"k": "mut", "id": rid, "i": k, "field": "value", "to": rng.choice(ODD_VALUES)}], kind
+    if kind == "value-valid":      # the value another conforming record has there
+        other, _t = history_record(rng, ann)
+        return [{"k": "mut", "id": rid, "i": k, "field": "value", "to": other[k]["value"]}], kind
+    if kind == "position":         # still conforming, but it sorts elsewhere
+        names = [c["key"] for c in cols]
+        p = rng.choice([1, 7, 70, 7000])
+        return [{"k": "mut", "id": rid, "i": names.index("Start_Position"), "field": "value", "to": {"t": "int", "v": str(p)}},
+                {"k": "mut", "id": rid, "i": names.index("End_Position"), "field": "value", "to": {"t": "int", "v": str(p + 3)}}], kind
+    if kind == "key":
+        return [{"k": "mut", "id": rid, "i": k, "field": "key", "to": rng.choice(["Not_A_Column", cols[(k + 1) % len(cols)]["key"]])}], kind
+    if kind == "index":
+        return [{"k": "mut", "id": rid, "i": k, "field": "index", "to": rng.choice([None, 0, len(cols) + 3, (k + 1) % len(cols)])}], kind
+    if kind == "replace":
+        c = cols[k]
+        new = rng.choice([{"cls": rng.choice(FOREIGN), "key": c["key"], "value": rng.choice([c["value"]] + ODD_VALUES), "index": rng.choice([k, None])},
+                          {"scheme": ann, "col": c["key"], "key": c["key"], "value": rng.choice(ODD_VALUES), "index": k}])
+        return [{"k": "replace", "id": rid, "col": new}], kind
+    return [{"k": "delete", "id": rid, "key": cols[k]["key"]}], kind
+
+
+def gen_history(rng, anns):
+    """One writer session over live record objects -> the writer.history request (it is also the replayable input)."""
+    ann = ANN if rng.random() < 0.7 else rng.choice(anns)
+    sort = rng.random() < 0.5
+    seqs, patterns, kinds = [], [], []
+    for rid in range(rng.randrange(1, 4)):
+        cols, line = history_record(rng, ann)
+        how = rng.choice(["parse", "api", "api-validated"] * 3 + ["parse-lenient"])
+        new = {"k": "new", "id": rid, "how": "parse" if how.startswith("parse") else "api", "cols": cols}
+        if how == "parse":
+            new.update({"line": line, "scheme": ann, "mode": "Strict"})
+        elif how == "api-validated":
+            new["validate"] = ann
+        pat = rng.choice(PATTERNS)
+        if how == "parse-lenient":        # what a non-strict parse of a line that does not conform returns (columns dropped / no column at all)
+            fields = line.split("\t")
+            for _ in range(rng.choice([1, 1, 2])):
+                fields[rng.randrange(len(fields))] = rng.choice(["", "x", "0", "-1", "1.5", "A;B", "None", " ", "a b"])
+            if rng.random() < 0.2:
+                fields = fields[:-1] if rng.random() < 0.5 else fields + ["x"]
+            new.update({"line": "\t".join(fields), "scheme": ann, "mode": rng.choice(["Silent", "Lenient"])})
+            del new["cols"]
+            pat = rng.choice(["plain", "plain", "offer-twice"])
+        wr = lambda: {"k": "write", "id": rid, "call": rng.choice(["iadd", "iadd", "write"])}  # noqa: E731
+        seq = [new]
+
+        def muts(n):
+            for _ in range(n):
+                ops, kd = gen_mutations(rng, rid, cols, ann)
+                kinds.append(kd)
+                seq.extend(ops)
+        if pat == "mutate-then-offer":
+            if rng.random() < 0.3:
+                seq.append({"k": "validate", "id": rid, "scheme": ann})
+            muts(rng.choice([1, 1, 2]))
+            seq.append(wr())
+        elif pat == "offer-mutate-reoffer":
+            seq.append(wr())
+            muts(rng.choice([1, 1, 2]))
+            seq.append(wr())
+        elif pat == "offer-mutate":
+            seq.append(wr())
+            muts(rng.choice([1, 2]))
+        elif pat == "offer-twice":
+            seq += [wr(), wr()]
+        elif pat == "refuse-repair-reoffer":
+            j = [c["key"] for c in cols].index("Start_Position")
+            seq += [{"k": "mut", "id": rid, "i": j, "field": "value", "to": rng.choice([{"t": "int", "v": "0"}, {"t": "str", "v": "7"}, {"t": "none"}])},
+                    wr(), {"k": "mut", "id": rid, "i": j, "field": "value", "to": cols[j]["value"]}, wr()]
+        else:
+            seq.append(wr())
+        seqs.append(seq)
+        patterns.append("%s:%s" % (how, pat))
+    ops = []
+    while any(seqs):                      # interleave the records' own sequences
+        q = rng.choice([q for q in seqs if q])
+        ops.append(q.pop(0))
+    ops.append({"k": "close"})
+    return {"op": "writer.history", "ann": ann, "header_lines": history_header(ann, sort), "mode": "Strict", "assume_sorted": not sort,
+            "channel": rng.choice(CHANNELS), "ops": ops, "patterns": patterns, "mutations": kinds}
+
+
+def data_lines(text):
+    """The record lines of a produced file (after the '#' header lines and the column-name line)."""
+    lines = text.split("\n")
+    if lines and lines[-1] == "":
+        lines.pop()
+    k = 0
+    while k < len(lines) and lines[k].startswith("#"):
+        k += 1
+    return lines[k + 1:]
+
+
+def eval_history(req):
+    """Run one history on the implementation and apply the oracle (shared by run and replay_case).
+    -> (implementation's answer, failures, [(step, "refused" | "accepted")] for the offers or None when the writer could not be opened)"""
+    i = impl.run(req)
+    if pending_defect(req, i):
+        return i, [], "pending"
+    ann = req["ann"]
+    sort = not req["assume_sorted"]
+    live = req["channel"] in ("handle", "ctor")        # every write call is observable, not only the file after close
+    ncols = len(impl.scheme_by_annotation(ann).column_names())
+    base = {"sorting": sort, "channel": req["channel"], "scheme": ann, "patterns": req.get("patterns"), "history": req}
+    fails = []
+    if "init_exc" in i:
+        fails.append(dict(base, what="Strict writer could not be opened on a valid header", kind="init", got=i["init_exc"]))
+        return i, fails, None
+    prev = i["init_out"]
+    accepted, offers = [], []
+    for k, (o, st) in enumerate(zip(req["ops"], i["steps"])):
+        where = dict(base, step=k, op={x: y for x, y in o.items() if x != "cols"})
+        if o["k"] == "write":
+            snap = st.get("snap") or {}
+            if st["exc"] is not None:
+                offers.append((k, "refused"))
+                if not st["exc"].startswith("MafFormatException"):
+                    fails.append(dict(where, what="a non-conforming record was refused with %s, not the library's format exception" % st["exc"], kind="wrong-exception"))
+                if live and st["out"] != prev:
+                    fails.append(dict(where, what="a refused record contributed bytes to the output", kind="bytes-on-refusal"))
+            else:
+                offers.append((k, "accepted"))
+                accepted.append(snap.get("ok"))
+                if live and not sort:
+                    new = st["out"][len(prev):] if st["out"].startswith(prev) else st["out"]
+                    line = new[:-1] if new.endswith("\n") else new
+                    if new.count("\n") != 1 or len(line.split("\t")) != ncols or not strict_accepts(line, ann):
+                        fails.append(dict(where, what="the Strict writer emitted a line that a Strict reader does not accept",
+                                          kind="emitted-nonconforming", line=line[:300]))
+                    elif snap.get("ok") is not None and line != snap["ok"]:
+                        fails.append(dict(where, what="the emitted line is not the text of the record that was offered", kind="emitted-differs",
+                                          line=line[:300], offered=snap["ok"][:300]))
+        elif o["k"] == "close":
+            if st["exc"] is not None:
+                fails.append(dict(where, what="closing the writer failed with %s" % st["exc"], kind="close-failed"))
+        elif live and st["out"] != prev:
+            fails.append(dict(where, what="changing a record (no write call) changed the output", kind="bytes-on-mutation"))
+        prev = st["out"]
+    text = i["steps"][-1]["out"]
+    data = data_lines(text)
+    bad = [ln for ln in data if len(ln.split("\t")) != ncols or not strict_accepts(ln, ann)]
+    if bad:
+        fails.append(dict(base, what="the produced file holds a line that a Strict reader does not accept", kind="emitted-nonconforming", line=bad[0][:300]))
+    if None not in accepted and (sorted(data) != sorted(accepted) if sort else data != accepted):
+        extra = [ln for ln in data if ln not in accepted]
+        missing = [ln for ln in accepted if ln not in data]
+        fails.append(dict(base, what="the record lines of the produced file are not the accepted records as they were when they were accepted",
+                          kind="file-differs", n_lines=len(data), n_accepted=len(accepted), unexpected=[ln[:200] for ln in extra[:2]], missing=[ln[:200] for ln in missing[:2]]))
+    lines = text.split("\n")
+    if lines and lines[-1] == "":
+        lines.pop()
+    rd = impl.run({"op": "reader.run", "lines": lines, "mode": "Strict"})
+    if rd.get("init_exc") or rd.get("iter_exc") or len(rd.get("records", [])) != len(accepted):
+        fails.append(dict(base, what="the produced file is not accepted in full by a Strict reader", kind="file-rejected",
+                          got=rd.get("init_exc") or rd.get("iter_exc") or "%d records for %d accepted" % (len(rd.get("records", [])), len(accepted))))
+    return i, fails, offers
+
+
+history_model_request = impl.history_model_request
+history_model_differs = impl.history_model_differs
+
+
+def history_cases(ctx, out):
+    rng = ctx.rng("c06-history")
+    others = [a for a in impl.builtin_annotations() if a != ANN]
+    anns = sorted(rng.sample(others, ctx.scale(2, len(others))))
+    reqs = [gen_history(rng, anns) for _ in range(ctx.scale(120, 1500))]
+    mreqs = [history_model_request(r) for r in reqs]
+    mo = iter(ctx.driver.run([m for m in mreqs if m is not None]))
+    for r, mr in zip(reqs, mreqs):
+        out.evaluations += 1
+        i, fails, offers = eval_history(r)
+        out.failures += fails
+        if mr is None:
+            out.unmodelled += 1
+        else:
+            m = next(mo)
+            if offers == "pending":
+                pass                       # the model does not have the pending defect
+            elif has_unmodelled(m):
+                out.unmodelled += 1
+            else:
+                d = history_model_differs(r, m, i)
+                if d:
+                    out.disagreements.append(d)
+        if offers is None:
+            continue
+        if offers == "pending":
+            out.dontcare += 1
+            out.distribution["history:pending-defect:" + pending_defect(r, i)] += 1
+            continue
+        for p in r["patterns"]:
+            out.distribution["history:" + p.split(":")[1]] += 1
+        for kd in r["mutations"]:
+            out.distribution["history-mut:" + kd] += 1
+        for k, res in offers:
+            out.distribution["history-offer:" + res] += 1
+        out.distribution["history-channel:%s:%s" % (r["channel"], "direct" if r["assume_sorted"] else "sorting")] += 1
+        if r["mutations"]:
+            out.nontrivial.add(json.dumps([r["ann"], r["assume_sorted"], r["channel"], r["patterns"], [o for o in r["ops"] if o["k"] not in ("new",)]], sort_keys=True, default=str))
+        if len(out.samples) < 5 and r["mutations"]:
+            out.sample({"history": r["patterns"], "scheme": r["ann"], "sorting": not r["assume_sorted"], "channel": r["channel"],
+                        "ops": [o["k"] + (":" + o["field"] if o["k"] == "mut" else "") for o in r["ops"]],
+                        "excs": [s["exc"] for s in i["steps"]]})
+
+
 def run(ctx):
     out = Outcome()
     out.rule = ("Strict writers (direct and sorting) under gdc-1.0.0 offered conforming records interleaved with records deviating in one way: a value of a wrong Python type / out of range / "
                 "containing TAB, CR, LF or ';', a column of a foreign class, a missing / extra / renamed column, swapped indexes, post-hoc mutation of value / index / key; "
-                "non-trivial = a deviating record; distinct (deviation kind, position, value)")
+                "non-trivial = a deviating record; distinct (deviation kind, position, value).  Histories: live record objects (parsed / API-built / validated) under gdc-1.0.0 and other "
+                "schemes, offered, changed in place (value, list append/insert/setitem/extend/pop/clear, key, index, record[name] = ..., del) and offered again or changed after the offer, "
+                "on direct and sorting writers opened by from_fd / constructor / from_path / from_path(.gz), through += and write(): every emitted line is the text the record had when it was accepted")
     rng = ctx.rng("c06")
     reqs, meta = [], []
     for _ in range(ctx.scale(260, 3000)):
@@ -221,12 +493,15 @@ def run(ctx):
                 out.nontrivial.add(repr(where))
         if len(out.samples) < 3 and any(kd != "conforming" for kd in kinds):
             out.sample({"sorting": sort, "deviations": kinds, "excs": [s["exc"] for s in i["steps"]]})
+    history_cases(ctx, out)
     return out
 
 
 def replay_case(ctx, failure):
     """Re-evaluate the stored failing input on the current implementation; return the list of failure dicts it
     produces now (empty list = the property holds on that input)."""
+    if isinstance(failure.get("history"), dict):
+        return replay_history(ctx, failure)
     sess = failure.get("session")
     if not isinstance(sess, dict) or any(k not in sess for k in ("sorting", "deviations", "records")):
         return None          # older replay files hold only a summary of the deviating record
@@ -267,6 +542,58 @@ def replay_case(ctx, failure):
     for f in fails:
         print("oracle fails%s: %s" % (" (step %d)" % f["step"] if "step" in f else "", f["what"]))
     # the stored violation first, when it is still there
+    fails.sort(key=lambda f: not (f.get("kind") == failure.get("kind") and f.get("step") == failure.get("step")))
+    return fails
+
+
+def replay_history(ctx, failure):
+    req = failure["history"]
+    if any(k not in req for k in ("ann", "header_lines", "assume_sorted", "channel", "ops")):
+        return None
+    print("Strict %s writer for %s opened by %s, header %s; live record objects:" % (
+        "direct" if req["assume_sorted"] else "sorting", req["ann"],
+        {"handle": "MafWriter.from_fd", "ctor": "MafWriter(handle, header)", "plain": "MafWriter.from_path", "gz": "MafWriter.from_path(.gz)"}.get(req["channel"], req["channel"]),
+        req["header_lines"]))
+    i, fails, offers = eval_history(req)
+    steps = i.get("steps", [])
+    prev = i.get("init_out", "")
+    for k, o in enumerate(req["ops"]):
+        st = steps[k] if k < len(steps) else {"exc": "?", "out": prev}
+        if o["k"] == "new":
+            d = "record %d: %s" % (o["id"], ("MafRecord.from_line(<%d fields>, %s)" % (len(o["line"].split("\t")), o.get("mode", "Strict"))) if o["how"] == "parse" else
+                                   "%d columns of the scheme's classes added through the API%s" % (len(o["cols"]), ", then record.validate(scheme)" if o.get("validate") else ""))
+        elif o["k"] == "mut":
+            c = req["ops"][[j for j, x in enumerate(req["ops"]) if x["k"] == "new" and x["id"] == o["id"]][0]]["cols"][o["i"]]
+            d = "record %d: column object %d (%s) %s %s" % (o["id"], o["i"], c["key"], o["field"], json.dumps({x: o[x] for x in ("to", "at") if x in o}))
+        elif o["k"] == "replace":
+            d = "record %d: record[%r] = %s" % (o["id"], o["col"]["key"], json.dumps(o["col"]))
+        elif o["k"] == "delete":
+            d = "record %d: del record[%r]" % (o["id"], o["key"])
+        elif o["k"] == "validate":
+            d = "record %d: record.validate(scheme=%s)" % (o["id"], o["scheme"])
+        elif o["k"] == "write":
+            d = "record %d: offered (%s)" % (o["id"], "writer.write(record)" if o.get("call") == "write" else "writer += record")
+        else:
+            d = "close"
+        new = st["out"][len(prev):] if st["out"].startswith(prev) else st["out"]
+        res = ""
+        if o["k"] in ("write", "close") or st["exc"]:
+            res = " -> %s; output grew by %d line(s)" % ("raised " + st["exc"] if st["exc"] else "ok", new.count("\n"))
+        print("    step %d: %s%s" % (k, d, res))
+        prev = st["out"]
+    try:
+        mr = history_model_request(req)
+        if mr is None:
+            print("model: no op keeps record objects across record[name] = ... / del; implementation only")
+        else:
+            m = ctx.driver.run([mr])[0]
+            d = None if has_unmodelled(m) else history_model_differs(req, m, i)
+            print("model (every offer as a fresh record in the state of that moment): %s" % (
+                "outside the model's domain" if has_unmodelled(m) else "the same on every offer and on close" if d is None else "differs at step %s: %s" % (d["step"], json.dumps(d["model"]))))
+    except Exception as e:  # noqa
+        print("model: not available (%s)" % str(e)[:200])
+    for f in fails:
+        print("oracle fails%s: %s" % (" (step %d)" % f["step"] if "step" in f else "", f["what"]))
     fails.sort(key=lambda f: not (f.get("kind") == failure.get("kind") and f.get("step") == failure.get("step")))
     return fails
 
